@@ -37,6 +37,7 @@ Fixpoint smem (e : sexpr) (c : ctx) (s : name) : bool :=
   | SBasic => mem s (basic c)
   | SLiveIn => mem s (live_in c)
   | SLiveOut => mem s (live_out c)
+  | SFn sets => existsb (fun f => mem s (fn_get c f)) sets
   end.
 Definition in_input_only (c : ctx) (s : name) : bool := smem input_only_gen c s.
 
